@@ -55,7 +55,7 @@ def case(part, cfg):
 
 def configs(thorough, seed):
     out = []
-    models = ['lin1', 'sq', 'mlp3', 'conv', 'convsq', 'seq3d']
+    models = ['lin1', 'sq', 'mlp3', 'conv', 'convsq', 'seq3d', 'nbfirst']
     methods = [('eigen', True), ('eigen', False), ('inverse', False)]
     dampings = [1e-2, 1e-1, 1.0, 10.0]
     decays = [0.5, 0.95, 1.0]
